@@ -550,7 +550,14 @@ def _to_shape_list(region_list, coordinate_system='fk5'):
                 new_coord.append(u.Quantity(val.x, u.dimensionless_unscaled))
                 new_coord.append(u.Quantity(val.y, u.dimensionless_unscaled))
             else:
+                # the frame the CRTF keyword stands for, with its default
+                # attributes (equinox) given explicitly: otherwise
+                # transform_to keeps the coordinate's own equinox
                 frame = frame_transform_graph.lookup_name(coordsys)
+                if frame is not None:
+                    frame = frame()
+                    frame = type(frame)(**{attr: getattr(frame, attr)
+                                           for attr in frame.frame_attributes})
                 new_coord.append(Angle(val.transform_to(frame).spherical.lon))
                 new_coord.append(Angle(val.transform_to(frame).spherical.lat))
 
